@@ -16,6 +16,14 @@ CHECKS = {
     "C07": {'level': 'exploration', 'design': '6 (C07), 3.8', 'text': "Pipeline.tla's lifecycle (Validate -> RunGen -> WriteFiles -> Build) gives the requirement; TLC-generated programs (every DslGen cell x options) plus name-shape / omitted-package cells are compiled for all six targets; whether the emitted files are valid programs is decided by the target toolchains (go, rustc, javac, g++, python ast, the harness Lua parser); marker texts and member inventories are observed; the recorded lifecycle is validated by TLC against TraceLifecycle.tla.", 'note': 'The deciding observer is the target toolchain, so the level is exploration; reference runtimes define the API; 199 known findings at this commit.', 'technique': 'TLC-generated programs + target toolchains as oracles + TLC validation of the recorded lifecycle (TraceLifecycle)'},
     "C15": {'level': 'model_checking', 'design': '6 (C15), 4.5', 'text': "Wire!Segments gives every leaf field's byte range (SegmentsTile checked by MCWire); the emitted Lua dissector is interpreted (own Lua-subset interpreter with lexical name resolution + Wireshark stubs) over the canonical encoding of every sweep message of every DslGen program; TLC validates every recorded tree:add against Segments (field, offset, length), the end offset and the absence of Lua errors (TraceDissect).", 'note': 'Trusted: harness/lua_interp.py and lua_wireshark.py (345 unit checks), lenient about TreeItem:le_add / ProtoField.int; 83 known findings.', 'technique': 'TLC model checking of Wire.tla + interpretation of the emitted dissector + TLC trace validation (TraceDissect)'},
     "C17": {'level': 'exploration', 'design': '6 (C17), 3.8', 'text': 'The self-tests fin-protoc emits for Go (real testify), Rust (rustc --test), Java (JUnit stand-in), Python (unittest), C++ (gtest stand-in) are built and run for every DslGen program; the recorded SelfTest lifecycle (builds, one test per declared packet, all pass) is validated by TLC against TraceLifecycle.tla.', 'note': 'JUnit and gtest are stand-ins with the same assertion semantics; toolchains decide validity (exploration).', 'technique': 'TLC-generated programs + running the emitted tests + TLC validation of the recorded lifecycle'},
+    "C08": dict(
+        level="model_checking", design="6 (C08), 3.10",
+        text="Respell.tla: Meaning(p) is the normal form (MetaData resolved, padding resolved to byte/side, effective configuration); TLC checks "
+             "Meaning' = Meaning for every respelling site of three composite base programs built from DslGen cells and enumerates every (base, site); "
+             "both texts are compiled by the real CLI for all six targets and TLC validates that the outputs are byte-identical (TraceRespell.tla). "
+             "The converse ('an attribute applies only to the field it is written on') is the inline / inlineall sites on MetaData-shared fields.",
+        note="Single-site respellings in quick; the renderer (harness/dsl.py) only lays out tokens, every structural rewrite is proved meaning-preserving by TLC first.",
+        technique="TLC check of Meaning-preservation + TLC-enumerated respellings compiled by the CLI + TLC trace validation"),
     "C09": dict(
         level="model_checking", design="6 (C09), 3.9",
         text="Format.tla (document history machine: Format / Relayout(k) / Compile; ems never changes, errors only on invalid "
